@@ -29,6 +29,31 @@ func (m *Model) rowSource(v ssa.Value, fr *frame) *SQLSite {
 		return m.siteOfCallValue(x)
 	case *ssa.Extract:
 		return m.siteOfCallValue(x.Tuple)
+	case *ssa.Parameter:
+		// a scan helper: the rows come from its callers, which must agree
+		fn := x.Parent()
+		idx := -1
+		for i, p := range fn.Params {
+			if p == x {
+				idx = i
+			}
+		}
+		if idx < 0 || !m.inPkg(fn) {
+			return nil
+		}
+		var site *SQLSite
+		for _, c := range m.staticCallersOf(fn) {
+			args := c.Common().Args
+			if idx >= len(args) {
+				return nil
+			}
+			s := m.rowSource(args[idx], topFrame(c.Parent()))
+			if s == nil || (site != nil && s != site) {
+				return nil
+			}
+			site = s
+		}
+		return site
 	}
 	return nil
 }
